@@ -8,7 +8,7 @@ import pytz
 from hypothesis import strategies as st
 
 from vlib.runner import Failure, Stream, exc_signature
-from vlib import sut
+from vlib import sut, values as V
 from vlib.model.lineparse import parse_line, unfold, LineSyntaxError
 
 from icalendar import Alarm, Event, Todo, FreeBusy, Calendar
@@ -22,7 +22,7 @@ RULE = ("Zone ids: Hypothesis samples from all ids known to both tz libraries (q
         "and folds included); shapes: single DTSTART/DTEND/DUE/RECURRENCE-ID, EXDATE/RDATE lists, RDATE period list, FREEBUSY period; "
         "tzinfo source zoneinfo / pytz / dateutil; both providers. Oracle: the emitted line (reference line parser) has the same "
         "wall-clock fields, TZID == zone key and no Z (UTC: Z and no TZID); parsed back: same wall fields, same zone id, utcoffset == "
-        "the offset the provider's tz library assigns to that wall time (fold 0 / is_dst=False); dateutil sources: wall time only. "
+        "the offset the provider's tz library assigns to that wall time in the reading of RFC 5545 3.3.5 (first occurrence of a repeated time, offset before a gap: fold 0); dateutil sources: wall time only. "
         "DTSTAMP/CREATED/LAST-MODIFIED/ACKNOWLEDGED (add and descriptors) are written as astimezone(UTC) with Z. Non-trivial: zone "
         "!= UTC and wall time within a day of a transition, or list/period shape; distinct by hash.")
 ASSUMPTIONS = ["tzdata as installed is the ground truth for offsets", "zone ids known to both zoneinfo and pytz (so that every source x provider pair is meaningful)"]
@@ -81,7 +81,7 @@ def transitions(zone):
 def mk_dt(src, zone, wall, fold=0):
     naive = datetime(*wall, fold=fold)
     if src == "pytz":
-        return pytz.timezone(zone).localize(naive.replace(fold=0), is_dst=bool(fold))
+        return V.pytz_local(pytz.timezone(zone), naive.replace(fold=0), fold)
     if src == "dateutil":
         tz = dateutil.tz.gettz(zone)
         if tz is None:
@@ -100,7 +100,7 @@ def as_subclass(dt):
 
 def provider_offset(provider, zone, naive):
     if provider == "pytz":
-        return pytz.timezone(zone).localize(naive).utcoffset()
+        return V.pytz_local(pytz.timezone(zone), naive).utcoffset()     # RFC 5545 3.3.5: first occurrence / offset before a gap, as fold=0
     return naive.replace(tzinfo=zoneinfo.ZoneInfo(zone)).utcoffset()
 
 
